@@ -18,6 +18,7 @@ M = {
  'C07-l9': ('C07','cache.go','		if !reflect.DeepEqual(a[i], b[i]) {','		if i > 0 && !reflect.DeepEqual(a[i], b[i]) {','countCommonPrefix: the first input always counts as common (a slot that starts with another token is resumed; only the differential oracle can see it)'),
  'C07-l10': ('C07','cache.go','	if longest == len(longestSlot.Inputs) && !longestSlot.InUse {','	if longest == len(longestSlot.Inputs) {','findBestCacheSlot: a slot whose whole record matches is reused even when it is in use (multi-user policy)'),
  'C07-l11': ('C07','runner.go','	s.mu.Lock()\n	found := false\n	for i, sq := range s.seqs {\n		if sq == nil {\n			seq.cache, seq.inputs, err = s.cache.LoadCacheSlot(seq.inputs, true)','	seqsSeen := append([]*Sequence(nil), s.seqs...)\n	s.mu.Lock()\n	found := false\n	for i, sq := range seqsSeen {\n		if sq == nil {\n			seq.cache, seq.inputs, err = s.cache.LoadCacheSlot(seq.inputs, true)','completion: the free entry of Server.seqs is chosen from a copy taken before Server.mu is locked (two handlers, one entry; schedule-dependent)'),
+ 'C07-l12': ('C07','runner.go','			} else if embedding != batch.IsEmbedding() || crossAttention != seq.crossAttention {','			} else if crossAttention != seq.crossAttention {','processBatch: token and image-embedding inputs are put into the same batch (needs prompts with images)'),
  'C14-l1': ('C14','runner.go','		if common.ContainsStopSuffix(sequence, seq.stop) {\n			continue\n		}\n','','processBatch: text that may be the beginning of a stop string is not withheld'),
  'C14-l2': ('C14','runner.go','		if common.IncompleteUnicode(sequence) {\n			continue\n		}\n','','processBatch: an incomplete multi-byte character is not withheld (flushPending then drops its bytes)'),
  'C14-l3': ('C14','runner.go','seq.numPredict > 0 && seq.numPredicted >= seq.numPredict','seq.numPredict > 0 && seq.numPredicted > seq.numPredict','processBatch: the prediction limit lets one token too many through'),
@@ -44,7 +45,7 @@ for mid in ids:
     tmp = f'/tmp/lr-work/{mid}.{f}'
     open(tmp,'w').write(orig.replace(old,new))
     d = sh('diff','-u','--label',f'a/runner/llamarunner/{f}','--label',f'b/runner/llamarunner/{f}',f'/repo/runner/llamarunner/{f}',tmp).stdout
-    open(f'{VERIF}/seeded_self/{mid}.diff','w').write(d)
+    open(f'{VERIF}/seeded_self/{mid}.diff','w').write(f'# {mid} (H-llamarunner): {desc}\n'+d)
     os.remove(tmp)
     reset()
     p = f'{MUT}/runner/llamarunner/{f}'
